@@ -355,7 +355,7 @@ def _branch_label(fn, i):
     return "always"
 
 
-@rule("C19.idents-consumers", min_instances=5)
+@rule("C19.idents-consumers", min_instances=5, props=["C04"])
 def idents_consumers(ctx):
     """every parse-tree node class that parses a sub-expression subtracts the names the expression binds itself from the names it demands"""
     db = ctx.db
@@ -383,6 +383,11 @@ def idents_consumers(ctx):
     for cls in ("Expression", "TextTag", "DefTag", "BlockTag"):
         fn = db.func("parsetree.%s.undeclared_identifiers" % cls)
         ctx.check("filters.DEFAULT_ESCAPES" in src(fn), "consumer:%s.filters" % cls, db.where(fn), "built-in filter flags (h, u, trim, ...) of %s are demanded from the context" % cls, "built-in flags subtracted")
+        # ... from the names of the filter list only: x, h, u, n, trim ... are ordinary variable names everywhere else
+        for d_ in [c_ for c_ in ast.walk(fn) if isinstance(c_, ast.Call) and isinstance(c_.func, ast.Attribute) and c_.func.attr in ("difference", "difference_update") and c_.args and "DEFAULT_ESCAPES" in src(c_.args[0])]:
+            recv_ = resolve_deep(fn, d_.func.value, 3)
+            wide_ = [a_ for a_ in ast.walk(recv_) if isinstance(a_, ast.Attribute) and a_.attr in ("expression_undeclared_identifiers",) or (isinstance(a_, ast.Attribute) and a_.attr == "undeclared_identifiers" and not src(a_.value).endswith(("filter_args", "escapes_code")))]
+            ctx.check(not wide_, "consumer:%s.filters-only" % cls, db.where(d_), "the names of the built-in filters are subtracted from `%s`, which holds more than the filter list (%s): a template variable that happens to be called x, h, u, n, trim, ... and is read in an attribute expression / the body is no longer fetched from the context" % (src(recv_)[:80], src(wide_[0]) if wide_ else ""), "subtracted from the filter list's names only")
 
 
 def _features(fn, db):
